@@ -70,6 +70,13 @@ CHECKS = {
         "dask's synchronous executor with a replaced priority function is the owned scheduler; dask itself trusted.",
         "DESIGN.md §4 C10",
     ),
+    "C12": (
+        "exploration",
+        "Hypothesis property-based testing with scripted numpy.random (the uniform numbers themselves are generated, incl. 0, 1 and denormals): exact bounds, closed-form CDF residual in log-energy evaluated with expm1, normalisation product, boundary-heavy spectral indices around 1",
+        "Every generated (index, bounds, N, u) is checked for lower <= x <= upper exactly, |F(x)-u| <= 1e-9 + resolution of x, norm x weight == 1 to 4 ulp. Evidence, not proof.",
+        "math.expm1/log1p trusted; the residual tolerance includes the representational resolution of x for ulp-wide bounds.",
+        "DESIGN.md §4 C12",
+    ),
     "C18": (
         "exploration",
         "Hypothesis property-based testing: byte-level write/read round trips in HDF5 and FITS over generated grids, slice and row-interpolation checks against own scalar references; exhaustive enumeration of every node of the shipped tables against the samplers' preconditions",
